@@ -7,6 +7,7 @@ CONSTANT Buggy_ArgsBySetOrder = FALSE
 CONSTANT Buggy_DigestSkipsShared = FALSE
 CONSTANT Buggy_CompiledLosesVars = FALSE
 CONSTANT Buggy_OptionsCrossed = FALSE
+CONSTANT Buggy_LegacyHashAssigns = FALSE
 CONSTANT Buggy_VarsByName = FALSE
 INIT Init
 NEXT Next
